@@ -320,4 +320,51 @@ Section Stmts.
     { apply collect_at; auto; [rewrite Q2; exact Hw | rewrite Q3; exact He]. }
     rewrite (assert_eol_nl _ r e A3). eexists. split; [reflexivity|]. apply apnl_nl; auto.
   Qed.
+
+  (* x:T *)
+  Theorem typed_decl_roundtrip lvl s x t ty r e :
+    ident_text x = true -> fty_ty t = Some ty -> decl_ok x s ->
+    at_toks s (toks_of_pieces (fmt_stmt fx lvl (FmtAst.STypedDecl x t [])) ++ mk T_NL :: r) e ->
+    is_ws (look0 (skip1 r)) = false ->
+    exists s', parse_typed_decl_stmt B s = Ok (Some (Parser.STypedDecl x (Some ty))) s' /\ at_toks s' (skip1 r) e.
+  Proof.
+    intros Hx Hty (D1 & D2 & D3 & D4) Hat Hn.
+    cbn [fmt_stmt] in Hat. unfold write_comment in Hat. cbn [is_empty] in Hat. rewrite app_nil_r in Hat.
+    unfold write_decl in Hat. rewrite toks_app in Hat. cbn [toks_of_pieces flat_map tok_of_piece app] in Hat.
+    rewrite (ident_text_spec x Hx) in Hat. change (tok_of_text k_colon) with (mk T_COLON) in Hat.
+    fold (toks_of_pieces (fmt_type t)) in Hat. rewrite (toks_fmt_type t ty Hty) in Hat.
+    destruct Hat as (Hr & Hw & He).
+    unfold parse_typed_decl_stmt, parse_typed_decl.
+    assert (Pa : passert T_IDENT s = (true, s)).
+    { unfold passert, assert_token, cur_t, cur. rewrite Hr. cbn. destruct s; reflexivity. }
+    rewrite Pa. cbn [snd]. unfold cur. rewrite Hr. cbn [app look0 hd tlit ident_tok].
+    assert (Hth : is_ws (look0 (render_ty ty ++ mk T_NL :: r)) = false) by (destruct ty; reflexivity).
+    assert (A1 : at_toks (adv s) (mk T_COLON :: render_ty ty ++ mk T_NL :: r) e).
+    { apply (adv_at s (ident_tok x) (mk T_COLON :: render_ty ty ++ mk T_NL :: r) e); [split; auto|reflexivity]. }
+    assert (A2 : at_toks (adv (adv s)) (render_ty ty ++ mk T_NL :: r) e).
+    { assert (Hs : skip1 (render_ty ty ++ mk T_NL :: r) = render_ty ty ++ mk T_NL :: r) by (destruct ty; reflexivity).
+      rewrite <- Hs. apply (adv_at (adv s) (mk T_COLON) (render_ty ty ++ mk T_NL :: r) e A1). rewrite Hs. exact Hth. }
+    (* parseType *)
+    unfold p_type, expr_call. destruct A2 as (R2 & W2 & E2).
+    assert (W2' : is_wss (cs (adv (adv s))) = false) by (unfold is_wss; rewrite W2; reflexivity).
+    assert (Hfu : ty_size ty <= efuel (cs (adv (adv s)))).
+    { pose proof (ty_size_le ty). unfold efuel, here. rewrite R2, app_length. lia. }
+    rewrite (parse_type_spec ty (cs (adv (adv s))) false (mk T_NL :: r) _ R2 W2' eq_refl Hfu).
+    destruct (consume_ty_spec ty (cs (adv (adv s))) false (mk T_NL :: r) R2 W2' eq_refl) as (C1 & C2 & C3).
+    set (c := consume_ty ty (cs (adv (adv s)))) in *.
+    assert (A3 : at_toks (collect (adv (adv s)) c) (mk T_NL :: r) e).
+    { apply collect_at; auto; [rewrite C2; exact W2 | rewrite C3; exact E2]. }
+    set (s2 := collect (adv (adv s)) c) in *.
+    assert (Hvd : validate_var_decl B x (pos s) false s2 = (true, s2)).
+    { unfold validate_var_decl. rewrite D1.
+      assert (L : in_local x s2 = false) by (unfold s2; rewrite in_local_collect; exact D2). rewrite L.
+      assert (Fn : is_func x s2 = false) by (unfold is_func in *; unfold s2; rewrite fns_collect; exact D3). rewrite Fn.
+      cbn [negb andb]. rewrite D4. reflexivity. }
+    rewrite Hvd.
+    set (s3 := scope_set x _ s2).
+    assert (A4 : at_toks s3 (mk T_NL :: r) e).
+    { unfold s3, scope_set. rewrite D4. destruct (scs s2); [exact A3|]. unfold at_toks, with_scs. cbn [cs]. exact A3. }
+    rewrite (assert_eol_nl s3 r e A4).
+    eexists. split; [reflexivity|]. apply apnl_nl; auto.
+  Qed.
 End Stmts.
